@@ -49,6 +49,10 @@ var c16Corpus = []c16Prog{
 	// the same content formatted twice with different string types, and once more as a text statement (anything remembered from the first call must not give the later texts its line)
 	{name: "format twice", text: `script S9 { ¶ ⟦c60 cmd60 ( format ( "fmtx" , "TEST" , 40 ) ) ⟧ ¶ ⟦c61 cmd61 ⟧ ¶ ⟦c62 cmd62 ( format ( ascii"fmtx" , "TEST" , 40 ) ) ⟧ ¶ } ¶ ⟦t9 text Tx9 { ¶ format ( braille"fmtx" , "TEST" , 40 ) ¶ } ⟧`,
 		lines: [][2]string{{"\tcmd60 ", "c60"}, {"\tcmd61", "c61"}, {"\tcmd62 ", "c62"}, {"\t.string \"fmtx$\"", "c60"}, {"\t.ascii \"fmtx\\0\"", "c62"}, {"\t.braille \"fmtx$\"", "t9"}}},
+	// constructs whose first character is not ASCII (commands, steps, items, labels, the continuation line of a multi-line literal):
+	// in the one-token-per-line layouts every such token starts a line
+	{name: "non-ascii starts", text: `script S10 { ¶ ⟦c70 écmd ( éa , 1 ) ⟧ ¶ ⟦l7 Élabel : ⟧ ¶ ⟦c71 ñcmd ⟧ ¶ ⟦c72 cmd72 ( MPT3 ) ⟧ ¶ ⟦c73 cmd73 ⟧ ¶ } ¶ ⟦m7 movement Mv7 { ¶ ⟦st70 épas ⟧ ¶ ⟦st71 ñpas * 2 ⟧ ¶ } ⟧ ¶ ⟦ma7 mart Mt7 { ¶ ⟦i70 Éther ⟧ ¶ ⟦i71 ITEM71 ⟧ ¶ } ⟧`,
+		lines: [][2]string{{"\técmd ", "c70"}, {"Élabel:", "l7"}, {"\tñcmd", "c71"}, {"\tcmd72 ", "c72"}, {"\t.string \"Bonjour", "c72"}, {"\tcmd73", "c73"}, {"Mv7:", "m7"}, {"\tépas", "st70"}, {"\tñpas", "st71"}, {"Mt7:", "ma7"}, {"\t.2byte Éther", "i70"}, {"\t.2byte ITEM71", "i71"}}},
 	// a raw block whose lines contain a lone carriage return, a multi-byte character and a CRLF line end, followed by more source
 	{name: "raw content", text: `raw ⟦raw RAW2 ⟧ ¶ script S6 { ¶ ⟦c40 cmd40 ⟧ ¶ } ¶ raw ⟦raw RAW ⟧ ¶ script S7 { ¶ ⟦c41 cmd41 ⟧ ¶ }`,
 		lines: [][2]string{{"\tcmd40", "c40"}, {"\tcmd41", "c41"}}},
@@ -59,6 +63,7 @@ const c16Multi1 = "\"pa1\\n\"\n\t\t\"pa2\\n\"\n\n\t\t\"pa3\""
 const c16Multi2 = "\"pb1\\p\"\n\t\"pb2\""
 
 const c16Raw = "`rawl0\nrawl1\n\nrawl3\n`"
+const c16Multi3 = "\"Bonjour\nété\nça va\""
 const c16Raw2 = "`rawm0\nrawm1\rrawm1b\nrawm2 é\r\nrawm3\n`"
 
 type c16Tok struct {
@@ -88,6 +93,8 @@ func c16Parse(text string) []c16Tok {
 				w = c16Multi1
 			case "MPT2":
 				w = c16Multi2
+			case "MPT3":
+				w = c16Multi3
 			}
 			toks = append(toks, c16Tok{text: w, tags: append([]string{}, stack...)})
 		}
@@ -469,7 +476,7 @@ func runC16(tier string) int {
 	r.Assume("'the line on which the construct was written' is read as any line of the construct's source extent: the command, the label, the operand test incl. its comparison, the switch header, the case, the map-script entry head, the step / item, the whole text/movement/mart statement for the marker at its label, the enclosing command for hoisted text and moves() data; a raw line's own source line; in addition the marker in front of the first line of a multi-line text must not name a line after the one its first part is written on (the following lines of the text are counted from it)",
 		"string literals and raw blocks are single tokens (their inner layout is fixed)")
 	return r.Finish(r.Get("evaluations"), r.Get("nontrivial"),
-		"10 corpus programs covering every marker-emitting construct with unique names (incl. raw blocks whose lines hold a lone carriage return, a CRLF line end and a multi-byte character) x {default, one token per line, all on one line} + every layout obtained from the default by inserting <= k extras (line break, blank line, '#' comment, '//' comment line) at any token gaps; each layout compiled with lm on / off / on without a path; plus transparency and marker range over every program of the control-flow families (C01 / C03 / C04 bounds: all shapes, dead-label, sequence and scaled programs) and of the data families (C06 hoisting files, C08 mapscripts statements, file-level programs, reduced bounds) with optimize on and off; plus one program placed after K blank lines for every K <= 300 (thorough 3000) and around every power of two up to 2^17 (thorough 2^20); non-trivial = the source has >= 2 lines")
+		"11 corpus programs covering every marker-emitting construct with unique names (incl. raw blocks whose lines hold a lone carriage return, a CRLF line end and a multi-byte character) x {default, one token per line, all on one line} + every layout obtained from the default by inserting <= k extras (line break, blank line, '#' comment, '//' comment line) at any token gaps; each layout compiled with lm on / off / on without a path; plus transparency and marker range over every program of the control-flow families (C01 / C03 / C04 bounds: all shapes, dead-label, sequence and scaled programs) and of the data families (C06 hoisting files, C08 mapscripts statements, file-level programs, reduced bounds) with optimize on and off; plus one program placed after K blank lines for every K <= 300 (thorough 3000) and around every power of two up to 2^17 (thorough 2^20); non-trivial = the source has >= 2 lines")
 }
 
 func tagKind(tag string) string { return strings.TrimRight(tag, "0123456789") }
